@@ -2,13 +2,13 @@ package main
 
 import (
 	"fmt"
-	"regexp"
 	"go/ast"
 	"go/constant"
 	"go/token"
 	"go/types"
-	"os"
 	"math/big"
+	"os"
+	"regexp"
 	"sort"
 	"strings"
 
@@ -37,17 +37,17 @@ func (s *State) clone() *State {
 }
 
 type loopInfo struct {
-	head    *ssa.BasicBlock
-	ordinal int
+	head        *ssa.BasicBlock
+	ordinal     int
 	contractOrd int // ordinal of the contract's clause group bound to this loop when it differs (remapLoops); -1: none
-	blocks  map[int]bool
-	backs   []*ssa.BasicBlock // sources of back edges
+	blocks      map[int]bool
+	backs       []*ssa.BasicBlock // sources of back edges
 	// state and substitution base captured at head
-	headState *State
-	preState  *State
-	decTerm   string
+	headState   *State
+	preState    *State
+	decTerm     string
 	decUnsigned bool
-	cands     []candidate
+	cands       []candidate
 }
 
 // Enc encodes one function into passive-form SMT and collects its obligations.
@@ -68,41 +68,41 @@ type Enc struct {
 	obls  []*Obligation
 	n     int
 
-	knownSorts  map[Sort]bool // discovered in pass 1, pre-declared in pass 2
-	pass        int
-	strLits     map[string]string
-	typeIDs     map[string]int
-	typeOfID    map[int]types.Type
-	globalIDs   map[string]int
-	abstracted  map[string]int
-	usedTrusted map[string]bool
-	assumptions map[string]bool
-	occ         map[string]int // occurrence counters for obligation names
-	loops       map[int]*loopInfo
-	loopOf      map[int][]*loopInfo // block index -> loops containing it (outermost first)
-	dbg         map[string][]dbgRef // source name -> debug refs
-	entry       *State
-	params      map[string]Val
-	curBlock    int
-	retOrd      int
-	hasDefer    bool
-	noSafety    bool
-	inlineSubst map[ssa.Value]Val // substitution used while re-evaluating loop-head values
-	inlineHead  *ssa.BasicBlock
-	inlineState *State
-	fnName      string
-	errs        []string
-	bounded     bool
-	curState    *State
-	nonEsc      map[ssa.Value]bool
-	curInstr    ssa.Instruction
-	freshDerived map[ssa.Value][]ssa.Value
-	freshEsc    map[ssa.Value][]ssa.Instruction // fresh heap values -> instructions at which they (or an alias) escape
-	blockReachT map[int]map[int]bool            // CFG reachability between blocks (reflexive only through cycles)
-	disabledCands map[string]bool
+	knownSorts     map[Sort]bool // discovered in pass 1, pre-declared in pass 2
+	pass           int
+	strLits        map[string]string
+	typeIDs        map[string]int
+	typeOfID       map[int]types.Type
+	globalIDs      map[string]int
+	abstracted     map[string]int
+	usedTrusted    map[string]bool
+	assumptions    map[string]bool
+	occ            map[string]int // occurrence counters for obligation names
+	loops          map[int]*loopInfo
+	loopOf         map[int][]*loopInfo // block index -> loops containing it (outermost first)
+	dbg            map[string][]dbgRef // source name -> debug refs
+	entry          *State
+	params         map[string]Val
+	curBlock       int
+	retOrd         int
+	hasDefer       bool
+	noSafety       bool
+	inlineSubst    map[ssa.Value]Val // substitution used while re-evaluating loop-head values
+	inlineHead     *ssa.BasicBlock
+	inlineState    *State
+	fnName         string
+	errs           []string
+	bounded        bool
+	curState       *State
+	nonEsc         map[ssa.Value]bool
+	curInstr       ssa.Instruction
+	freshDerived   map[ssa.Value][]ssa.Value
+	freshEsc       map[ssa.Value][]ssa.Instruction // fresh heap values -> instructions at which they (or an alias) escape
+	blockReachT    map[int]map[int]bool            // CFG reachability between blocks (reflexive only through cycles)
+	disabledCands  map[string]bool
 	inContractEval bool
-	mathInts    bool // mode math: integers are unbounded mathematical integers (no range facts assumed)
-	rc          *ReplayCtx
+	mathInts       bool // mode math: integers are unbounded mathematical integers (no range facts assumed)
+	rc             *ReplayCtx
 	// explicit quantifier instantiation (see instancesFor)
 	sawHypAll    bool
 	noSkolem     bool
